@@ -877,6 +877,37 @@ func hubOracles(hr *hubRun, cs hubCase, o *gen.Oracle) []h.Violation {
 					add("C17:end-announced-more-often-than-start", fmt.Sprintf("subscriber %s selector %q: %d active=false event(s) and no active=true", k.sid, k.topic, nFalse))
 				}
 			}
+			// C05/C06: with the persistent transport (no retention) the history holds every update the hub accepted —
+			// publications and subscription events alike — in the accepted order. The '*' watcher (claim '*') connected
+			// first and still connected matches all of them: its stream is that history, minus the events of its own
+			// registration (dispatched before it was registered). Compared by id, on the implementation alone.
+			if bt, ok := hr.f.tr.(*mercure.BoltTransport); ok && cs.Size == 0 && !hr.stopped && sidOf[hr.conns[0].label] != "" {
+				func() {
+					defer func() { recover() }()
+					_, stored := mercure.VerifBoltKeys(bt)
+					own := "/" + url.PathEscape(sidOf[hr.conns[0].label])
+					var want, got []string
+					for _, id := range stored {
+						if !strings.HasSuffix(id, own) && !strings.HasSuffix(id, "/"+url.QueryEscape(sidOf[hr.conns[0].label])) {
+							want = append(want, id)
+						}
+					}
+					for _, e := range sseParse(hr.conns[0].w.Body()) {
+						got = append(got, e.ID)
+					}
+					if len(got) == len(want) {
+						for i := range want {
+							if got[i] != want[i] {
+								for _, k := range []string{"C05", "C06"} {
+									add(k+":matching-connected-subscriber-was-not-handed-an-accepted-update", fmt.Sprintf("the '*' watcher connected from the start received %q at position %d of its stream; the %d-th accepted update (history of the hub) is %q, which it matches and never received in that place", got[i], i, i, want[i]))
+								}
+
+								break
+							}
+						}
+					}
+				}()
+			}
 			for _, lc := range hr.conns[1:] {
 				if sidOf[lc.label] == "" {
 					// the connection ended within its own registration (its replay overflowed its buffer): it was
